@@ -240,6 +240,22 @@ impl C11 {
                 l.push(("toml::to_string(u128)", toml::to_string(&W { v: u }).map_err(|e| e.to_string())));
                 l.push(("toml_edit::ser::to_string(u128)", toml_edit::ser::to_string(&W { v: u }).map_err(|e| e.to_string())));
                 if let Ok(x) = u64::try_from(v) {
+                    // the bare number through both value serializers, in every unsigned width that holds it
+                    macro_rules! bare {
+                        ($name_t:literal, $name_e:literal, $val:expr) => {{
+                            let val = $val;
+                            let mut out = String::new();
+                            let r = serde::Serialize::serialize(&val, toml::ser::ValueSerializer::new(&mut out)).map(|_| ()).map_err(|e| e.to_string());
+                            l.push(($name_t, r.map(|_| format!("v = {out}"))));
+                            l.push(($name_e, serde::Serialize::serialize(&val, toml_edit::ser::ValueSerializer::new()).map(|x| format!("v = {x}")).map_err(|e| e.to_string())));
+                            l.push((concat!($name_t, " via Value::try_from"), toml::Value::try_from(val).map(|x| format!("v = {x}")).map_err(|e| e.to_string())));
+                        }};
+                    }
+                    bare!("toml::ser::ValueSerializer(u64)", "toml_edit::ser::ValueSerializer(u64)", x);
+                    bare!("toml::ser::ValueSerializer(usize)", "toml_edit::ser::ValueSerializer(usize)", x as usize);
+                    if let Ok(y) = u32::try_from(x) {
+                        bare!("toml::ser::ValueSerializer(u32)", "toml_edit::ser::ValueSerializer(u32)", y);
+                    }
                     l.push(("toml::to_string(u64)", toml::to_string(&W { v: x }).map_err(|e| e.to_string())));
                     l.push(("toml::to_string_pretty(u64)", toml::to_string_pretty(&W { v: x }).map_err(|e| e.to_string())));
                     l.push(("toml_edit::ser::to_string(u64)", toml_edit::ser::to_string(&W { v: x }).map_err(|e| e.to_string())));
